@@ -434,9 +434,9 @@ def rule_r5(ctx):
 def rule_r7(ctx):
     """No pattern applied to client bytes has exponential ambiguity (no input can make a gate 'hang')."""
     from ..model import RePat
-    from ..relang import has_exponential_ambiguity
+    from ..relang import Pattern, has_exponential_ambiguity, polynomial_ambiguity
     rid = "C06.R7"
-    ctx.r.rule(rid, "no compiled pattern of the package has exponential degree of ambiguity (SCC test on the squared position automaton)")
+    ctx.r.rule(rid, "no compiled pattern of the package has exponential degree of ambiguity (SCC test on the squared position automaton), and none that is applied to input has polynomial ambiguity with a failing continuation (IDA test on the cubed position automaton): no line makes a gate 'hang'")
     n = 0
     for modname, m in ctx.p.modules.items():
         for name, expr in m.globals.items():
@@ -456,6 +456,36 @@ def rule_r7(ctx):
                 ctx.r.violation(rid, "eda::%s.%s" % (modname, name), "pattern %s.%s has exponential ambiguity (two distinct loops on one position reading the same word): a crafted input makes the match take exponential time" % (modname, name), m.path, info)
             else:
                 ctx.r.ok(rid, "%s.%s: %d positions, no EDA" % (modname, name, info["positions"]), m.path)
+            # polynomial ambiguity (IDA): x v^k can be split between two loops in k ways; when what follows makes the
+            # match fail, the backtracking matcher tries them all - quadratic (or worse) in the length of the line, and a
+            # line may be as long as max_request_header_size: minutes to hours of the one I/O thread for one request
+            methods = sorted({c.func.attr for f in ctx.p.functions.values() for c in ast.walk(f.node) if isinstance(c, ast.Call) and isinstance(c.func, ast.Attribute)
+                              and c.func.attr in ("match", "fullmatch", "search") and (dotted(c.func.value) or "").split(".")[-1] == name})
+            if not methods:
+                continue
+            try:
+                w = polynomial_ambiguity(v.pattern, v.flags)
+            except AnalysisError as e:
+                ctx.r.error(rid, "%s.%s: %s" % (modname, name, e))
+                continue
+            if w is None:
+                ctx.r.ok(rid, "%s.%s: finite degree of ambiguity (no two loops share a pumpable word)" % (modname, name), m.path)
+                continue
+            pat = Pattern(v.pattern, v.flags)
+            fails = None
+            for meth in methods:
+                lang = pat.language(meth)
+                for z in [bytes([b]) for b in (0, 10, 32, 255)] + [b"\x00\x00", b" \x00"]:
+                    if not any(lang.contains(w["prefix"] + w["pump"] * k + z) for k in (1, 2, 3, 7)):
+                        fails = (meth, z)
+                        break
+                if fails:
+                    break
+            if fails is None:
+                ctx.r.ok(rid, "%s.%s: two loops share a word but every continuation tried still matches (no failing run to backtrack over)" % (modname, name), m.path)
+            else:
+                ctx.r.violation(rid, "ida::%s.%s" % (modname, name), "pattern %s.%s (.%s) has polynomial ambiguity: %r + %r * k can be divided between two loops in k ways and %r + %r * k + %r does not match - the backtracking matcher tries all of them: super-linear time in a line that may be max_request_header_size long (the I/O thread serves nobody meanwhile)"
+                                % (modname, name, fails[0], w["prefix"], w["pump"], w["prefix"], w["pump"], fails[1]), m.path, {k: (v2.decode("latin-1") if isinstance(v2, bytes) else v2) for k, v2 in w.items()})
     ctx.r.floor(rid, n, 7, "compiled patterns")
 
 
@@ -545,6 +575,8 @@ selftest = [
     M("te-as-400", "parser.py", "self.error = ServerNotImplemented(e.args[0])", "self.error = BadRequest(e.args[0])", "R4"),
     M("body-total-not-accumulated", "parser.py", "            self.body_bytes_received += consumed\n", "            self.body_bytes_received = consumed\n", "R3"),
     M("field-content-nested-plus", "rfc7230.py", 'FIELD_CONTENT = FIELD_VCHAR + "+(?:[ \\t]+" + FIELD_VCHAR + "+)*"', 'FIELD_CONTENT = "(?:" + FIELD_VCHAR + "+[ \\t]*)+"', None),
+    M("first-line-two-loops", "parser.py", '    rb"(?P<uri>[\\x21-\\x7e\\x80-\\xff]+)"\n', '    rb"(?P<uri>(?:[^\\x00-\\x20\\x7f:?#]+://[^\\x00-\\x20\\x7f?#/]*)?[\\x21-\\x7e\\x80-\\xff]+)"\n', "R7"),
+    M("header-field-adjacent-ows", "rfc7230.py", '"(?P<value>(?:" + FIELD_CONTENT + OWS + ")?)$"', '"(?P<value>" + FIELD_VALUE + ")" + OWS + "$"', "R7"),
     T("catch-together", "parser.py", "        except ValueError:\n            raise ParsingError(\"Bad URI\")", "        except (ValueError, TypeError):\n            raise ParsingError(\"Bad URI\")"),
     T("limit-swapped", "parser.py", "if self.header_bytes_received >= max_header:", "if max_header <= self.header_bytes_received:"),
     T("limit-not-less", "parser.py", "if self.content_length >= max_body:", "if not self.content_length < max_body:"),
